@@ -1,0 +1,72 @@
+//! Verification hooks. This module only exists when the crate is built with `--cfg tera_verif`;
+//! nothing in here is reachable from a normal build.
+//!
+//! * a per-thread switch that skips the bytecode optimisation pass (`Chunk::optimize`),
+//! * a per-thread recorder of the instruction listings before/after that pass,
+//! * a per-thread log of renders that finished successfully with a non-empty engine state.
+use std::cell::{Cell, RefCell};
+
+use crate::vm::state::State;
+
+thread_local! {
+    static OPTIMIZE: Cell<bool> = const { Cell::new(true) };
+    static LISTINGS: RefCell<Option<Vec<(String, String, String)>>> = const { RefCell::new(None) };
+    static LEFTOVERS: RefCell<Vec<String>> = const { RefCell::new(Vec::new()) };
+}
+
+/// Enables/disables the optimisation pass for templates compiled on the current thread.
+pub fn set_optimize(enabled: bool) {
+    OPTIMIZE.with(|o| o.set(enabled));
+}
+
+/// Whether the optimisation pass runs for templates compiled on the current thread.
+pub fn optimize_enabled() -> bool {
+    OPTIMIZE.with(|o| o.get())
+}
+
+/// Starts (or stops) recording `(chunk name, listing before, listing after)` for every chunk that
+/// goes through the optimisation pass on the current thread.
+pub fn set_recording(enabled: bool) {
+    LISTINGS.with(|l| *l.borrow_mut() = if enabled { Some(Vec::new()) } else { None });
+}
+
+pub(crate) fn recording() -> bool {
+    LISTINGS.with(|l| l.borrow().is_some())
+}
+
+pub(crate) fn record_listing(name: &str, before: String, after: String) {
+    LISTINGS.with(|l| {
+        if let Some(v) = l.borrow_mut().as_mut() {
+            v.push((name.to_string(), before, after));
+        }
+    });
+}
+
+/// Returns and clears what was recorded on the current thread.
+pub fn take_listings() -> Vec<(String, String, String)> {
+    LISTINGS.with(|l| {
+        l.borrow_mut()
+            .as_mut()
+            .map(std::mem::take)
+            .unwrap_or_default()
+    })
+}
+
+pub(crate) fn check_state_empty(state: &State<'_>, site: &str) {
+    let stack = state.stack.len();
+    let loops = state.for_loops.len();
+    let captures = state.capture_buffers.len();
+    let blocks = state.blocks.len();
+    if stack != 0 || loops != 0 || captures != 0 || blocks != 0 {
+        LEFTOVERS.with(|l| {
+            l.borrow_mut().push(format!(
+                "{site}: value stack {stack}, loop stack {loops}, capture stack {captures}, block stack {blocks}"
+            ))
+        });
+    }
+}
+
+/// Returns and clears the log of successful renders that left something on one of the engine's stacks.
+pub fn take_leftovers() -> Vec<String> {
+    LEFTOVERS.with(|l| std::mem::take(&mut *l.borrow_mut()))
+}
